@@ -48,7 +48,15 @@ def gen_regression_data(rng, d, large=False):
         X = np.where(npr.rand(m, d) < 0.6, (q / 16.0 - 0.05) , npr.uniform(0.0, 0.9, size=(m, d)))
         X = np.clip(X, 0.0, 0.9)
         X[0, :], X[1, :] = 0.0, 0.9
+    int_data = (not large) and rng.random() < 0.08
+    if int_data:
+        # whole-number features stored as an integer-typed array (counts, categories, years)
+        X = npr.randint(-5, 20, size=(m, d)).astype(rng.choice([np.int64, np.int32]))
+        X[0, :], X[1, :] = -5, 19
     kind = rng.choice(["smooth", "noisy", "linear", "constant"])
+    if int_data and rng.random() < 0.5:
+        y = npr.randint(-3, 9, size=m).astype(np.int64)      # integer-typed targets as well
+        return X, y, "integer"
     if kind == "constant":
         y = np.full(m, 1.5)
     elif kind == "linear":
